@@ -8,9 +8,10 @@ import ColaVerif.Model.Algebra
 * class-specific rules (Identity, ScalarMul, Permutation, Product — conditional on all factors
   being square —, BlockDiag, Kronecker, Diagonal, Triangular; precedence 0) win against the
   algorithm rules (`precedence=-1`); declaration wrappers (`cola.PSD(A)` …) do not change the class;
-* otherwise the algorithm decides: `Auto` → the decision table `autoChoice (A.isa PSD) (rows·cols)`
-  (Cholesky / CG / LU / GMRES), `Cholesky` → `inv(L.H) @ inv(L)`, `LU` → `inv(U) @ inv(L) @ inv(P)`,
-  `CG` / `GMRES` → `IterativeOperatorWInfo(A, alg)`;
+* otherwise the algorithm decides: `Auto(**d)` → the decision table `autoChoice d (A.isa PSD) (rows·cols)`
+  (`Cholesky()` / `CG(**d)` / `LU()` / `GMRES(**d)`), `Cholesky` → `inv(L.H) @ inv(L)`,
+  `LU` → `inv(U) @ inv(L) @ inv(P)`, `CG` / `GMRES` → `IterativeOperatorWInfo(A, alg)` with the
+  algorithm OBJECT, i.e. its `tol` / `max_iters` (`Alg.cg o`, `Alg.gmres o`);
 * the conditional rule `inv(A: LinearOperator, alg: Algorithm) if A.isa(Unitary) → Unitary(A.H)` is more
   general than every rule above, so the resolver only ever selects it for an algorithm object
   that has no rule of its own (`Alg.other`).
@@ -23,26 +24,64 @@ theorems (`Lemmas/InvSound.lean`).  The library-internal result kinds (`Triangul
 
 namespace Inv
 
-/-- the algorithm argument of `inv` / `solve` (`auto` also models the omitted argument;
-`other` = an `Algorithm` object without an `inv` rule of its own) -/
-inductive Alg | auto | lu | chol | cg | gmres | other
+/-- the modelled entries of the `__dict__` of an `Auto(**kwargs)` object (`Auto` is an open
+`SimpleNamespace`): the requested tolerance and iteration bound; `none` = the key is absent.
+(`pbar`, `x0`, `P` are not modelled.) -/
+structure Opts where
+  tol : Option Rat := none
+  maxIters : Option Nat := none
+deriving DecidableEq, Repr, Inhabited
+
+/-- the modelled fields of a `CG` / `GMRES` object (cg.py:29-30, gmres.py:29-30) -/
+structure KOpts where
+  tol : Rat
+  maxIters : Nat
+deriving DecidableEq, Repr, Inhabited
+
+/-- the class defaults `tol = 1e-6`, `max_iters = 1000` -/
+def KOpts.default : KOpts := ⟨mkRat 1 1000000, 1000⟩
+
+/-- `CG(**d)` / `GMRES(**d)`: a keyword that is present overrides the class default -/
+def KOpts.ofDict (d : Opts) : KOpts :=
+  ⟨d.tol.getD KOpts.default.tol, d.maxIters.getD KOpts.default.maxIters⟩
+
+/-- the algorithm argument of `inv` / `solve` WITH the options the object carries (`auto {}` also
+models the omitted argument; `other` = an `Algorithm` object without an `inv` rule of its own;
+`LU()` / `Cholesky()` have no fields) -/
+inductive Alg | auto (d : Opts) | lu | chol | cg (o : KOpts) | gmres (o : KOpts) | other
 deriving DecidableEq, Repr, Inhabited
 
 def Alg.toString : Alg → String
-  | .auto => "Auto" | .lu => "LU" | .chol => "Cholesky" | .cg => "CG" | .gmres => "GMRES"
+  | .auto _ => "Auto" | .lu => "LU" | .chol => "Cholesky" | .cg _ => "CG" | .gmres _ => "GMRES"
   | .other => "Other"
 
-/-- the decision table of `inv(A, Auto)`: `match (A.isa(PSD), bool(np.prod(A.shape) <= 1e6))` -/
-def autoChoice (isPSD : Bool) (entries : Nat) : Alg :=
+/-- the tolerance / iteration bound an algorithm object hands to a Krylov solver: its own fields
+for `CG` / `GMRES`; for `Auto(**d)` what `CG(**d)` / `GMRES(**d)` make of `d` -/
+def Alg.requested : Alg → Option KOpts
+  | .auto d => some (.ofDict d) | .cg o => some o | .gmres o => some o | _ => none
+
+/-- the options of a solver object (`none` for the direct algorithms) -/
+def Alg.kopts : Alg → Option KOpts
+  | .cg o => some o | .gmres o => some o | _ => none
+
+def Alg.isAuto : Alg → Bool | .auto _ => true | _ => false
+def Alg.isCG : Alg → Bool | .cg _ => true | _ => false
+def Alg.isGMRES : Alg → Bool | .gmres _ => true | _ => false
+
+/-- the decision table of `inv(A, Auto(**d))`: `match (A.isa(PSD), bool(np.prod(A.shape) <= 1e6))`;
+the large branches build `CG(**alg.__dict__)` / `GMRES(**alg.__dict__)` (inv.py:85, 89) -/
+def autoChoice (d : Opts) (isPSD : Bool) (entries : Nat) : Alg :=
   match isPSD, decide (entries ≤ 1000000) with
   | true, true => .chol
-  | true, false => .cg
+  | true, false => .cg (.ofDict d)
   | false, true => .lu
-  | false, false => .gmres
+  | false, false => .gmres (.ofDict d)
 
-/-- which algorithm rule finally runs -/
+/-- which algorithm rule finally runs, with which options -/
 def effAlg (alg : Alg) (isPSD : Bool) (entries : Nat) : Alg :=
-  if alg = .auto then autoChoice isPSD entries else alg
+  match alg with
+  | .auto d => autoChoice d isPSD entries
+  | .lu => .lu | .chol => .chol | .cg o => .cg o | .gmres o => .gmres o | .other => .other
 
 variable {R : Type}
 
@@ -134,7 +173,8 @@ def bdiagMatmatV [Zero R] (Ms : List (FacV R × Nat)) (k : Nat) (v : MatF R) : M
 /-! ## the operators `inv` returns -/
 
 /-- result kinds of `inv`: an ordinary operator, `TriangularInv(T)` (payload of the Triangular
-operator), `IterativeOperatorWInfo(A, alg)`, and `Product` / `Kronecker` / `BlockDiag` of results -/
+operator), `IterativeOperatorWInfo(A, alg)` (`alg` = the solver OBJECT, with its options), and `Product` /
+`Kronecker` / `BlockDiag` of results -/
 inductive InvOp (R : Type) : Type where
   | op (A : Op R)
   | triInv (dt : DType) (n : Nat) (lower : Bool) (a : MatF R)
@@ -172,6 +212,15 @@ def dtype : InvOp R → DType
 def isScalarMul : InvOp R → Bool
   | op A => A.isScalarMul
   | _ => false
+
+/-- the solver objects (`IterativeOperatorWInfo.alg`) inside the result, left to right -/
+def solvers : InvOp R → List Alg
+  | op _ => []
+  | triInv .. => []
+  | iterInv _ alg => [alg]
+  | prod Ms => (Ms.map (·.solvers)).flatten
+  | kron Ms => (Ms.map (·.solvers)).flatten
+  | bdiag Ms _ => (Ms.map (·.solvers)).flatten
 
 section anns
 variable [DecidableEq R]
@@ -325,9 +374,9 @@ def allSquare (Ms : List (Op R)) : Bool := (Ms.map (fun M => M.rows == M.cols)).
 /-- the algorithm rules (`precedence=-1`), for an operator whose class has no rule of its own -/
 def algRule (E : Ext R) (alg : Alg) (A : Op R) : Except String (InvOp R) :=
   match effAlg alg (A.isa .psd) (A.rows * A.cols) with
-  | .gmres => .ok (.iterInv A .gmres)
-  | .cg =>
-      if A.isa .psd then .ok (.iterInv A .cg) else .error "error:AssertionError"
+  | .gmres o => .ok (.iterInv A (.gmres o))
+  | .cg o =>
+      if A.isa .psd then .ok (.iterInv A (.cg o)) else .error "error:AssertionError"
   | .chol =>
       if A.isa .psd then
         -- L = Triangular(xnp.cholesky(A.to_dense()), lower=True);  inv(L.H) @ inv(L)
@@ -341,7 +390,7 @@ def algRule (E : Ext R) (alg : Alg) (A : Op R) : Except String (InvOp R) :=
         .op (.perm .f32 (argsort plu.1))])
   | .other =>
       if A.isa .unitary then .ok (.op (.annot .unitary A.adjointRule)) else .error "not-found"
-  | .auto => .error "unreachable"
+  | .auto _ => .error "unreachable"
 
 /-- rule selection by the class of `cur` (`top` = the same operator with its declaration
 wrappers: annotations are read from it and the Identity rule returns it) -/
